@@ -50,8 +50,32 @@ def run(ctx):
     em = MK.emitted_by_macro(ctx.ast("meta_matrix.cpp"))
     ctx.rule("R13.1", "DEPKEYS: the key set scan_deps iterates over == the keys emitted by rEnabledBy / rDepends / rDefaultDepends, and each is used as the metadata lookup key")
     ctx.rule("R13.3", "PER-MESSAGE: scan_deps receives no mutable state that is shared between the messages of one file (the dependency edges of a line must not depend on the other lines)")
+    ctx.rule("R13.4", "KAHN-BALANCED: the in-degree of the topological sort is incremented once per entry of every message's dependee list and decremented once per entry of the released message's list - both by a range-for over the whole `dependees` vector")
     ctx.rule("R13.2", "DEPVALUE: the separator scan_deps splits dependency values at is the one rDepends emits between paths")
     per_message_state(ctx, u, "R13.3")
+    fd = u.function("dispatch_printed_messages")
+    sides = {"++": [], "--": []}
+    for x in A.walk(u.body(fd)):
+        if x.get("kind") == "UnaryOperator" and x.get("opcode") in ("++", "--"):
+            t = A.strip_casts(A.kids(x)[0])
+            txt = A.src(t)
+            if "n_input_edges" in txt:
+                loop = None
+                for a in u.ancestors(x):
+                    if a.get("kind") in ("CXXForRangeStmt", "ForStmt", "WhileStmt", "DoStmt"):
+                        loop = a
+                        break
+                full = False
+                if loop is not None and loop.get("kind") == "CXXForRangeStmt":
+                    # the range initialiser mentions the member `dependees`
+                    rng = [y for y in A.kids(loop) if y.get("kind") == "DeclStmt"]
+                    full = any(z.get("kind") == "MemberExpr" and z.get("name") == "dependees" for d_ in rng[:1] for z in A.walk(d_))
+                sides[x.get("opcode")].append((x, loop.get("kind") if loop is not None else None, full))
+    ctx.require(sides["++"] and sides["--"], "dispatch_printed_messages: in-degree increment / decrement not found")
+    for op, lst in sides.items():
+        for x, lk, full in lst:
+            ctx.ob("R13.4", "in-degree %s" % op, full, site=A.where(x), detail={"enclosing_loop": lk, "range_for_over_dependees": full},
+                   what="the in-degree is %s inside a %s that is not a range-for over the whole `dependees` list: increments and decrements no longer pair up entry by entry" % ("incremented" if op == "++" else "decremented", lk))
     fn = u.function("scan_deps")
     # the array of key literals that a range-for iterates over
     arrays = []
